@@ -17,6 +17,8 @@ def run(res, pool, tier, seed):
         jobs = [dict(module="MC_FlatBody.tla", tag="catalogue", invariants=INVS, timeout=7200,
                      constants=dict(S=2, BODIES=set(POLYH + POLYG), KF=set(FLAT), SEED=sd, NSHARD=4, NXCHECK=16))]
     engine.run_jobs(res, jobs, pool)
+    import traces
+    traces.run_for(res, ["unit_tests", "driver"] if tier != "quick" else ["unit_tests"], {"C02"}, seed=seed + 1, nsessions=2500)
 
 
 def replay_case(case, tag, rng, tier):
